@@ -126,6 +126,8 @@ def _form(rng, depth, budget):
             parts.append(f'<textarea{_attrs(rng, extra)}>{rng.choice(["", chr(10), "txt", "שלום"])}</textarea>')
         else:
             parts.append(f'<progress{_attrs(rng, [("value", "1")] if rng.random() < 0.5 else None)}></progress>')
+    if rng.random() < 0.35:
+        parts.append('<input type="submit">' if rng.random() < 0.5 else '<button type="submit">go</button>')
     return f'<form{_attrs(rng)}>{"".join(parts)}</form>'
 
 
@@ -170,6 +172,9 @@ def _node(rng, depth, budget, allow_form=True):
     for _ in range(rng.randint(0, 4)):
         if rng.random() < 0.35:
             kids.append(_text(rng))
+        elif kids and rng.random() < 0.12:
+            # real documents repeat themselves: the same fragment pasted twice (identical content, distinct nodes)
+            kids.append(rng.choice(kids))
         else:
             kids.append(_node(rng, depth + 1, budget, allow_form))
     return f'<{tag}{_attrs(rng)}>{"".join(kids)}</{tag}>'
@@ -196,11 +201,20 @@ def _meta(rng):
 
 def gen_markup_html(rng, size):
     budget = [size]
-    body = ''
-    while budget[0] > 0 and len(body) < 6000:
-        body += _node(rng, 0, budget)
+    parts = []
+    while budget[0] > 0 and sum(map(len, parts)) < 6000:
+        big = [x for x in parts if x.startswith(('<form', '<div', '<section', '<ul', '<p'))]
+        if big and rng.random() < 0.18:
+            # the same fragment (a whole form, a block) pasted again: structurally identical, distinct nodes
+            parts.append(rng.choice(big))
+            budget[0] -= 2
+        else:
+            parts.append(_node(rng, 0, budget))
         if rng.random() < 0.15:
             break
+    if rng.random() < 0.25:
+        parts.insert(rng.randrange(len(parts) + 1), rng.choice(['<!-- note -->', '<!--[if IE]>x<![endif]-->', ' text ']))
+    body = ''.join(parts)
     shape = rng.random()
     if shape < 0.6:
         head = '<head>' + _meta(rng) + '</head>' if rng.random() < 0.85 else ''
